@@ -461,6 +461,11 @@ def run_case(case, ctx):
     # (f) core functions, local frame
     for i in range(n):
         p_loc = build.to_local(insts[i], obs[i])
+        if cls != "CustomSource" and float(geom.body_from_spec(insts[i]).dist(p_loc[None])[0]) < 1e-3 * geom.body_from_spec(insts[i]).L:
+            # (a shared observer was constructed for instance 0 and may lie on the surface of another instance: the
+            #  object interface applies its on-surface convention there, the bare core formula does not)
+            ctx.label("core_skipped_observer_on_surface")
+            continue
         rc = build.call(_core, cls, field, insts[i], p_loc)
         if not rc.ok:
             out.append(Violation({"sub": "form_raised", "form": "core", "cls": cls, **exc_sig(rc.exc)}, repr(rc.exc)[:200]))
